@@ -24,9 +24,24 @@ enum Late {
     Recompute,
 }
 
+thread_local! {
+    /// 0 = every offered event has an id of its own; k > 0 = ids repeat with period k (a source that re-delivers, a
+    /// replay, hand-built events): the statement speaks about every OFFERED event, whatever it is called
+    static ID_MOD: std::cell::Cell<usize> = const { std::cell::Cell::new(0) };
+}
+
+fn ev_id(i: usize) -> String {
+    let k = ID_MOD.with(|c| c.get());
+    if k == 0 {
+        format!("e{}", i)
+    } else {
+        format!("e{}", i % k)
+    }
+}
+
 fn ev(i: usize, ts: u64) -> StreamEvent {
     StreamEvent {
-        id: format!("e{}", i),
+        id: ev_id(i),
         event_type: "T".into(),
         data: HashMap::new(),
         metadata: EventMetadata { timestamp: ts, source: "s".into(), sequence: 0, tags: HashMap::new() },
@@ -34,6 +49,14 @@ fn ev(i: usize, ts: u64) -> StreamEvent {
 }
 
 fn gen(s: &mut Src, exh: u32) -> (Wm, Late, Vec<u64>) {
+    let r = gen_inner(s, exh);
+    // drawn last: one case in five re-uses event ids (period 1..3)
+    let k = if exh == 0 && s.chance(1, 5) { 1 + s.below(3) } else { 0 };
+    ID_MOD.with(|c| c.set(k));
+    r
+}
+
+fn gen_inner(s: &mut Src, exh: u32) -> (Wm, Late, Vec<u64>) {
     if exh > 0 {
         let wm = match s.below(4) {
             0 => Wm::Mono,
@@ -115,7 +138,11 @@ pub fn run(s: &mut Src, ctx: &mut Ctx) -> Verdict {
     if probe_only() {
         return Verdict::Pass;
     }
-    ctx.describe(|| format!("watermark={:?} late={:?} timestamps={:?}", wm, late, ts));
+    let idk = ID_MOD.with(|c| c.get());
+    ctx.describe(|| format!("watermark={:?} late={:?} timestamps={:?}{}", wm, late, ts, if idk > 0 { format!(" event ids repeat with period {}", idk) } else { String::new() }));
+    if idk > 0 {
+        ctx.label("repeated-event-ids");
+    }
     let ws = match wm {
         Wm::Mono => WatermarkStrategy::MonotonicAscending,
         Wm::Bounded(d) => WatermarkStrategy::BoundedOutOfOrder { max_delay: Duration::from_millis(d) },
@@ -155,19 +182,19 @@ pub fn run(s: &mut Src, ctx: &mut Ctx) -> Verdict {
                 Late::Allowed(l) => {
                     if m_wm - t <= l {
                         m_allowed += 1;
-                        m_events.push(format!("e{}", i));
+                        m_events.push(ev_id(i));
                     } else {
                         m_drop += 1;
                     }
                 }
-                Late::Side => m_side.push(format!("e{}", i)),
+                Late::Side => m_side.push(ev_id(i)),
                 Late::Recompute => {
                     m_allowed += 1;
-                    m_events.push(format!("e{}", i));
+                    m_events.push(ev_id(i));
                 }
             }
         } else {
-            m_events.push(format!("e{}", i));
+            m_events.push(ev_id(i));
             m_max = m_max.max(t);
             let cand = m_max.saturating_sub(delay);
             if cand > m_wm {
@@ -236,6 +263,7 @@ pub fn run(s: &mut Src, ctx: &mut Ctx) -> Verdict {
 /// longer than the interval so that the watermark really lags and then jumps (the oracle does not depend
 /// on how long the sleep actually took).
 pub fn run_periodic(s: &mut Src, ctx: &mut Ctx) -> Verdict {
+    ID_MOD.with(|c| c.set(0));
     let interval_ms = 1 + s.below(2) as u64;
     let late = match s.below(4) {
         0 => Late::Drop,
@@ -286,19 +314,19 @@ pub fn run_periodic(s: &mut Src, ctx: &mut Ctx) -> Verdict {
                 Late::Allowed(l) => {
                     if w - t <= l {
                         m_allowed += 1;
-                        m_events.push(format!("e{}", i));
+                        m_events.push(ev_id(i));
                     } else {
                         m_drop += 1;
                     }
                 }
-                Late::Side => m_side.push(format!("e{}", i)),
+                Late::Side => m_side.push(ev_id(i)),
                 Late::Recompute => {
                     m_allowed += 1;
-                    m_events.push(format!("e{}", i));
+                    m_events.push(ev_id(i));
                 }
             }
         } else {
-            m_events.push(format!("e{}", i));
+            m_events.push(ev_id(i));
             if t < max_seen && w < max_seen {
                 // out of order, the watermark lagged behind the largest timestamp: on time by the statement
                 lagged_then_not_late = true;
@@ -352,7 +380,8 @@ pub fn run_components(s: &mut Src, ctx: &mut Ctx) -> Verdict {
     if probe_only() {
         return Verdict::Pass;
     }
-    ctx.describe(|| format!("components watermark={:?} late={:?} steps (timestamp, drain-side-output-first) {:?}", wm, late, ts.iter().zip(drains.iter()).collect::<Vec<_>>()));
+    let idk = ID_MOD.with(|c| c.get());
+    ctx.describe(|| format!("components watermark={:?} late={:?} steps (timestamp, drain-side-output-first) {:?}{}", wm, late, ts.iter().zip(drains.iter()).collect::<Vec<_>>(), if idk > 0 { format!(" event ids repeat with period {}", idk) } else { String::new() }));
     let ws = match wm {
         Wm::Mono => WatermarkStrategy::MonotonicAscending,
         Wm::Bounded(d) => WatermarkStrategy::BoundedOutOfOrder { max_delay: Duration::from_millis(d) },
@@ -417,7 +446,7 @@ pub fn run_components(s: &mut Src, ctx: &mut Ctx) -> Verdict {
                 }
                 Late::Side => {
                     m_routed += 1;
-                    m_side.push(format!("e{}", i));
+                    m_side.push(ev_id(i));
                     "side"
                 }
                 Late::Recompute => {
@@ -425,7 +454,7 @@ pub fn run_components(s: &mut Src, ctx: &mut Ctx) -> Verdict {
                     "recompute"
                 }
             };
-            if kind != want || carried.as_deref().map(|c| c != format!("e{}", i)).unwrap_or(false) {
+            if kind != want || carried.as_deref().map(|c| c != ev_id(i)).unwrap_or(false) {
                 return Verdict::fail("components:decision", format!("step {} (t={}, watermark {}): decision {} carrying {:?}, the strategy {:?} prescribes {} for e{}", i, t, m_wm, kind, carried, late, want, i));
             }
         } else {
